@@ -116,7 +116,7 @@ class CoqResult:
 def coq_make(targets: list[str], jobs=8, timeout=3000) -> tuple[bool, str]:
     with Lock(COQ / ".lock"):
         regen_coqproject()
-        p = subprocess.run(["timeout", str(timeout), "make", f"-j{jobs}"] + targets, cwd=COQ,
+        p = subprocess.run(["bash", "-c", 'ulimit -v 12000000; exec timeout "$@"', "_", str(timeout), "make", f"-j{jobs}"] + targets, cwd=COQ,
                            stdout=subprocess.PIPE, stderr=subprocess.STDOUT, text=True)
     return p.returncode == 0, p.stdout
 
@@ -176,7 +176,7 @@ def coq_check_props(prop_id: str, clean=False) -> CoqResult:
         return r
     # recompile the property file itself for fresh Print Assumptions output
     with Lock(COQ / ".lock"):
-        p = subprocess.run(["timeout", "1200", "coqc", "-Q", ".", "NP", f"Props/{prop_id}.v"], cwd=COQ,
+        p = subprocess.run(["bash", "-c", 'ulimit -v 12000000; exec timeout "$@"', "_", "900", "coqc", "-Q", ".", "NP", f"Props/{prop_id}.v"], cwd=COQ,
                            stdout=subprocess.PIPE, stderr=subprocess.STDOUT, text=True)
     if p.returncode != 0:
         r.ok = False
